@@ -4,14 +4,14 @@ use crate::support::*;
 use educe::Educe;
 use core::cmp::Ordering;
 #[derive(Educe)]
-#[repr(i32)]
-#[educe(PartialOrd, PartialEq, Eq)]
-pub enum T { None = 127, Zed { r#type: i64 } = 128, B = 100, V1 { builder: (), a: Option<u8> } = 2 }
+#[repr(u8)]
+#[educe(Ord, PartialEq, PartialOrd, Eq)]
+pub enum T { Zed, Some { #[educe(Ord(rank(8)))] f: char, a: i64, #[educe(Ord(rank = 1))] y: bool } }
 
-pub fn values() -> Vec<T> { vec![T::None, T::Zed { r#type: -5 }, T::Zed { r#type: 0 }, T::Zed { r#type: 9 }, T::B, T::V1 { builder: (), a: None }, T::V1 { builder: (), a: Some(0) }, T::V1 { builder: (), a: Some(255) }] }
-pub fn show(x: &T) -> String { #[allow(unused_variables)] match x { T::None => format!("None()"), T::Zed { r#type: p0 } => format!("Zed({})", sv(p0)), T::B => format!("B()"), T::V1 { builder: p0, a: p1 } => format!("V1({},{})", sv(p0), sv(p1)) } }
-pub fn o_disc(x: &T) -> i128 { match x { T::None => 127, T::Zed { r#type: _ } => 128, T::B => 100, T::V1 { builder: _, a: _ } => 2 } }
-pub fn o_pcmp(a: &T, b: &T) -> Option<Ordering> { match (a, b) { (T::None, T::None) => {  Some(Ordering::Equal) }, (T::Zed { r#type: a0 }, T::Zed { r#type: b0 }) => { match ::core::cmp::PartialOrd::partial_cmp(a0, b0) { Some(Ordering::Equal) => (), x => return x } Some(Ordering::Equal) }, (T::B, T::B) => {  Some(Ordering::Equal) }, (T::V1 { builder: a0, a: a1 }, T::V1 { builder: b0, a: b1 }) => { match ::core::cmp::PartialOrd::partial_cmp(a0, b0) { Some(Ordering::Equal) => (), x => return x } match ::core::cmp::PartialOrd::partial_cmp(a1, b1) { Some(Ordering::Equal) => (), x => return x } Some(Ordering::Equal) }, _ => Some(o_disc(a).cmp(&o_disc(b))) } }
+pub fn values() -> Vec<T> { vec![T::Zed, T::Some { f: 'a', a: -5, y: false }, T::Some { f: 'a', a: -5, y: true }, T::Some { f: 'a', a: 0, y: false }, T::Some { f: 'a', a: 0, y: true }, T::Some { f: 'a', a: 9, y: false }, T::Some { f: 'a', a: 9, y: true }, T::Some { f: 'z', a: -5, y: false }, T::Some { f: 'z', a: -5, y: true }, T::Some { f: 'z', a: 0, y: false }, T::Some { f: 'z', a: 0, y: true }, T::Some { f: 'z', a: 9, y: false }, T::Some { f: 'z', a: 9, y: true }] }
+pub fn show(x: &T) -> String { #[allow(unused_variables)] match x { T::Zed => format!("Zed()"), T::Some { f: p0, a: p1, y: p2 } => format!("Some({},{},{})", sv(p0), sv(p1), sv(p2)) } }
+pub fn o_disc(x: &T) -> i128 { match x { T::Zed => 0, T::Some { f: _, a: _, y: _ } => 1 } }
+pub fn o_cmp(a: &T, b: &T) -> Ordering { match (a, b) { (T::Zed, T::Zed) => {  Ordering::Equal }, (T::Some { f: a0, a: a1, y: a2 }, T::Some { f: b0, a: b1, y: b2 }) => { let c = ::core::cmp::Ord::cmp(a1, b1); if c != Ordering::Equal { return c; } let c = ::core::cmp::Ord::cmp(a2, b2); if c != Ordering::Equal { return c; } let c = ::core::cmp::Ord::cmp(a0, b0); if c != Ordering::Equal { return c; } Ordering::Equal }, _ => o_disc(a).cmp(&o_disc(b)) } }
 #[repr(C)] pub struct Wrap { pub pre: u8, pub x: T, pub post: [u8; 9] }
 pub fn wrap(i: usize, n: u8) -> Wrap { Wrap { pre: n, x: values().swap_remove(i), post: [n; 9] } }
-pub fn run(out: &mut Out) { let vs = values(); for (i, a) in vs.iter().enumerate() { for (j, b) in vs.iter().enumerate() { let e = o_pcmp(a, b); let g = ::core::cmp::PartialOrd::partial_cmp(a, b); out.check(g == e, "ordlayout_23", "partial_cmp", || format!("partial_cmp({}, {}) = {:?} expected {:?}", show(a), show(b), g, e)); for n in [0u8, 1, 0x7f, 0x80, 0xff] { let wa = wrap(i, n); let wb = wrap(j, !n); let g = ::core::cmp::PartialOrd::partial_cmp(&wa.x, &wb.x); let e = o_pcmp(a, b); out.check(g == e, "ordlayout_23", "cmp_neighbours", || format!("cmp({}, {}) with neighbour bytes {} = {:?} expected {:?}", show(a), show(b), n, g, e)); } } } }
+pub fn run(out: &mut Out) { let vs = values(); for (i, a) in vs.iter().enumerate() { for (j, b) in vs.iter().enumerate() { let e = o_cmp(a, b); let g = ::core::cmp::Ord::cmp(a, b); out.check(g == e, "ordlayout_23", "cmp", || format!("cmp({}, {}) = {:?} expected {:?}", show(a), show(b), g, e)); let g2 = ::core::cmp::PartialOrd::partial_cmp(a, b); out.check(g2 == Some(e), "ordlayout_23", "partial_is_some_cmp", || format!("partial_cmp({}, {}) = {:?} expected Some({:?})", show(a), show(b), g2, e)); for n in [0u8, 1, 0x7f, 0x80, 0xff] { let wa = wrap(i, n); let wb = wrap(j, !n); let g = ::core::cmp::Ord::cmp(&wa.x, &wb.x); let e = o_cmp(a, b); out.check(g == e, "ordlayout_23", "cmp_neighbours", || format!("cmp({}, {}) with neighbour bytes {} = {:?} expected {:?}", show(a), show(b), n, g, e)); } } } }
